@@ -446,6 +446,10 @@ func (a *ethAPI) GetTransactionReceipt(ctx context.Context, hash common.Hash) (m
 	if r.Logs == nil {
 		r.Logs = []*types.Log{}
 	}
+	if tx.Status == 0 && tx.Hash[0]%2 == 0 {
+		// some nodes / archive formats also carry the pre-Byzantium state root in the receipt of a failed transaction
+		r.PostState = common.BigToHash(new(big.Int).SetBytes(tx.Hash[:8])).Bytes()
+	}
 	s.ReceiptServed[hash] = append(s.ReceiptServed[hash], ReceiptAnswer{LogN: len(s.Log), Found: true, BlockHash: tx.Block.Hash, Status: tx.Status})
 	s.Log[len(s.Log)-1].Detail += fmt.Sprintf(" -> block %d/%d status %d", tx.Block.Number, tx.Block.Variant, tx.Status)
 	m := toMap(r)
